@@ -431,7 +431,7 @@ def in_quantifier(c):
         if c["shape"][c["axis"] % rank] == 0:
             return False  # empty filtered axis
         return True
-    if c["axis"] % rank == c["time_axis"] % rank:
+    if c["axis"] % rank == c["time_axis"] % rank or c["num_vectors"] < 1:
         return False
     return True
 
@@ -460,9 +460,13 @@ def check_case(ctx, c, model_out=None):
         ctx.count("deltas:" + ("concat" if c["concatenate"] else "stack"))
     else:
         n, T = c["num_vectors"], (c["shape"][c["time_axis"] % len(c["shape"])] if c["shape"] else 0)
-        ctx.count("stack:" + ("T<n" if T < n else "T%n=0" if T % n == 0 else "T%n!=0"))
+        ctx.count("stack:" + ("n<1" if n < 1 else "T<n" if T < n else "T%n=0" if T % n == 0 else "T%n!=0"))
     if kind == "err":
         ctx.count("impl_error:" + res)
+    want = oshape = None
+    if inq and kind == "ok":
+        xi = np.array(c["data"], dtype=np.int64).reshape(c["shape"])
+        oshape, want = (deltas_oracle if op == "deltas" else stack_oracle)(xi, c["axis"], c)
     # ---- correspondence -------------------------------------------------------------------
     if model_out is not None:
         m = parse_model(model_out)
@@ -482,9 +486,12 @@ def check_case(ctx, c, model_out=None):
                     if exact_needed:
                         good = q.denominator == 1 and int(q) == v
                     elif c["dtype"].startswith("int") and op == "deltas":
-                        # model already truncated (cast = trunc); tolerate only the float64-intermediate ambiguity,
-                        # decided below by the oracle's exact value
-                        good = int(q) == int(v) or abs(int(q) - int(v)) == 1
+                        # the model already truncated (cast = trunc): exact, except where the float64 intermediate may
+                        # land just below a non-zero integer (decided from the oracle's exact value)
+                        good = q.denominator == 1 and int(q) == int(v)
+                        if not good and want is not None and list(oshape) == m[1]:
+                            good = value_ok(want[tuple(int(i) for i in np.unravel_index(k, res.shape))], v,
+                                            c["dtype"], scale)
                     else:
                         good = value_ok(q, v, c["dtype"], scale)
                     if not good:
@@ -507,8 +514,6 @@ def check_case(ctx, c, model_out=None):
     if not c["in_place"] and res.size and np.shares_memory(res, x):
         ctx.violation(c, "fresh array", "shares memory with the input",
                       "result does not alias the input when in_place=False", tags=dict(tags, clause="aliases_input"))
-    xi = np.array(c["data"], dtype=np.int64).reshape(c["shape"])
-    oshape, want = (deltas_oracle if op == "deltas" else stack_oracle)(xi, c["axis"], c)
     if list(res.shape) != list(oshape):
         ctx.violation(c, oshape, list(res.shape), "documented output shape", tags=dict(tags, clause="shape"))
         return rep
@@ -540,13 +545,15 @@ def cases_for(ctx):
     cases = list(CORPUS)
     cases += [gen_deltas(ctx) for _ in range(nd)]
     cases += [gen_stack(ctx) for _ in range(ns)]
-    # a few structurally special ones: rank 0, num_vectors < 1
-    cases.append(dict(op="deltas", shape=[], data=[3], dtype="float64", axis=0, num_deltas=1, context_window=2,
-                      target_axis=0, concatenate=True, pad_mode="edge", pad_kwargs={}, in_place=False))
+    # structurally special: rank 0 (every combination), num_vectors < 1
+    for D, cc, ta in itertools.product((0, 1), (True, False), (0, -1, 1)):
+        cases.append(dict(op="deltas", shape=[], data=[3], dtype="float64", axis=0, num_deltas=D, context_window=2,
+                          target_axis=ta, concatenate=cc, pad_mode="edge", pad_kwargs={}, in_place=False))
     cases.append(dict(op="stack", shape=[], data=[3], dtype="float64", axis=0, num_vectors=2, time_axis=0,
                       pad_mode=None, pad_kwargs={}, in_place=False))
-    cases.append(dict(op="stack", shape=[2, 2], data=[1, 2, 3, 4], dtype="float64", axis=1, num_vectors=0,
-                      time_axis=0, pad_mode=None, pad_kwargs={}, in_place=False))
+    for n in (0, -1):
+        cases.append(dict(op="stack", shape=[2, 2], data=[1, 2, 3, 4], dtype="float64", axis=1, num_vectors=n,
+                          time_axis=0, pad_mode=None, pad_kwargs={}, in_place=False))
     return cases
 
 
